@@ -201,6 +201,14 @@ fn tip_scenario(rng: &mut StdRng, sc: usize, out: Box<dyn std::io::Write>, _kv: 
     ];
     let claimed = variants[rng.gen_range(0..variants.len())].clone();
     let forged = sim.chain.forge_child(start, claimed);
+    // a second forged child whose chain root claims what the FIRST forged child (announced, never proved) adds up to
+    let two_step = rng.gen_bool(0.5);
+    let forged2 = if two_step {
+        let claimed2 = sim.chain.blocks[forged].td.clone();
+        Some(sim.chain.forge_child(start, claimed2))
+    } else {
+        None
+    };
     let mut env = Env::new(&sim, &[(start, leaf), (start, leaf)]);
     sim.reset(json!({"mode": "tip"}));
     // honest sync of both peers to `start`
@@ -220,6 +228,12 @@ fn tip_scenario(rng: &mut StdRng, sc: usize, out: Box<dyn std::io::Write>, _kv: 
     // the deviating peer announces the forged child
     env.send_last_state_of(&mut sim, 0, forged);
     env.enforce_bans(&mut sim);
+    if let Some(f2) = forged2 {
+        if env.peers[0].connected {
+            env.send_last_state_of(&mut sim, 0, f2);
+            env.enforce_bans(&mut sim);
+        }
+    }
     if rng.gen_bool(0.5) {
         env.restart(&mut sim);
     }
@@ -244,6 +258,62 @@ fn tip_scenario(rng: &mut StdRng, sc: usize, out: Box<dyn std::io::Write>, _kv: 
     (out, lines, panics)
 }
 
+/// C12: two branches of equal total difficulty.  Peer 1 is proven one block below the tip of branch F, peer 0
+/// proves the tip of branch M (the stored tip), then peer 1 announces the child of its proven header: the tip
+/// of F, exactly as heavy as the stored tip.  The stored tip must stay.
+fn tipeq_scenario(rng: &mut StdRng, sc: usize, out: Box<dyn std::io::Write>, _kv: &HashMap<String, String>) -> (Box<dyn std::io::Write>, u64, Vec<String>) {
+    let pow = if rng.gen_bool(0.3) { "eaglesong" } else { "dummy" };
+    let main_len = rng.gen_range(5..=20usize);
+    let last_n = *[2u64, 3, 5][..].get(rng.gen_range(0..3)).unwrap();
+    let mut built = build_world(rng, pow, main_len, 0, 1, true);
+    let leaf = built.leaves[0];
+    let desc = |c: &SimChain, id: usize| {
+        let b = &c.blocks[id];
+        let e = b.header.epoch();
+        (c.u(&b.diff), (e.number(), e.index(), e.length()))
+    };
+    let par = built.chain.blocks[leaf].parent.unwrap();
+    let grand = built.chain.blocks[par].parent.unwrap();
+    let (d1, e1) = desc(&built.chain, par);
+    let (d2, e2) = desc(&built.chain, leaf);
+    let a1 = built.chain.add_block(&crate::verif::world::WBlock { parent: grand as i64, diff: d1, epoch: e1, pow: true, root: true, txs: vec![] });
+    let a2 = built.chain.add_block(&crate::verif::world::WBlock { parent: a1 as i64, diff: d2, epoch: e2, pow: true, root: true, txs: vec![] });
+    let cfg = Config { last_n, max_outbound: 2, ..Default::default() };
+    let mut sim: Sim = new_sim(built.chain, cfg, 2, out, &format!("tipeq-{}", sc), vec!["peersync"]);
+    let mut env = Env::new(&sim, &[(grand, leaf), (grand, a2)]);
+    sim.reset(json!({"mode": "tipeq"}));
+    for i in 0..2 {
+        env.connect(&mut sim, i);
+        env.send_last_state(&mut sim, i);
+        while env.answer_proof(&mut sim, i) {}
+    }
+    // peer 1 proves a1
+    env.grow(&sim, 1, 1);
+    env.send_last_state(&mut sim, 1);
+    env.refresh(&mut sim);
+    while env.answer_proof(&mut sim, 1) {}
+    // peer 0 proves the main leaf: heavier, a fork of depth 1
+    env.grow(&sim, 0, 2);
+    env.send_last_state(&mut sim, 0);
+    env.refresh(&mut sim);
+    while env.answer_proof(&mut sim, 0) {}
+    env.enforce_bans(&mut sim);
+    // peer 1 announces the child of its proven header: as heavy as the stored tip
+    if env.peers[1].connected {
+        env.grow(&sim, 1, 1);
+        env.send_last_state(&mut sim, 1);
+        env.refresh(&mut sim);
+        while env.peers[1].connected && env.answer_proof(&mut sim, 1) {}
+    }
+    if rng.gen_bool(0.4) {
+        env.restart(&mut sim);
+    }
+    let lines = sim.lines;
+    let panics = sim.panics.clone();
+    let out = std::mem::replace(&mut sim.out, Box::new(std::io::sink()));
+    (out, lines, panics)
+}
+
 /// C01: in a state with an outstanding proof request every mutation of the honest answer is
 /// delivered (the state must not change, the peer must be banned), then the honest answer.
 fn mut_scenario(rng: &mut StdRng, sc: usize, out: Box<dyn std::io::Write>, kv: &HashMap<String, String>) -> (Box<dyn std::io::Write>, u64, Vec<String>) {
@@ -258,6 +328,24 @@ fn mut_scenario(rng: &mut StdRng, sc: usize, out: Box<dyn std::io::Write>, kv: &
     let built = build_world(rng, pow, main_len, if with_fork { 1 } else { 0 }, ((last_n as usize) / 2).max(1), true);
     let cfg = Config { last_n, max_outbound: 2, ..Default::default() };
     let leaves = built.leaves.clone();
+    let mut built = built;
+    // a twin branch of every leaf: forks at the grandparent, same difficulties and epochs, other content --
+    // the chain the cross-branch mutant proves
+    for leaf in leaves.iter() {
+        let desc = |c: &SimChain, id: usize| {
+            let b = &c.blocks[id];
+            let e = b.header.epoch();
+            (c.u(&b.diff), (e.number(), e.index(), e.length()))
+        };
+        let par = built.chain.blocks[*leaf].parent;
+        let grand = par.and_then(|p| built.chain.blocks[p].parent);
+        if let (Some(par), Some(grand)) = (par, grand) {
+            let (d1, e1) = desc(&built.chain, par);
+            let (d2, e2) = desc(&built.chain, *leaf);
+            let a1 = built.chain.add_block(&crate::verif::world::WBlock { parent: grand as i64, diff: d1, epoch: e1, pow: true, root: true, txs: vec![] });
+            built.chain.add_block(&crate::verif::world::WBlock { parent: a1 as i64, diff: d2, epoch: e2, pow: true, root: true, txs: vec![] });
+        }
+    }
     let mut sim: Sim = new_sim(built.chain, cfg, 2, out, &format!("mut-{}", sc), vec!["peersync"]);
     let main = leaves[0];
     let n = sim.chain.blocks[main].num;
@@ -306,6 +394,9 @@ fn mut_scenario(rng: &mut StdRng, sc: usize, out: Box<dyn std::io::Write>, kv: &
             // a seeded subset when there are too many
             while muts.len() > maxmut {
                 let k = rng.gen_range(0..muts.len());
+                if muts[k].label.starts_with("cross-branch") {
+                    continue;
+                }
                 muts.swap_remove(k);
             }
             for m in muts {
@@ -422,6 +513,7 @@ pub fn run(kv: &HashMap<String, String>) -> i32 {
         let (o, lines, p) = match mode.as_str() {
             "honest" => honest_scenario(&mut rng, sc, out, kv),
             "tip" => tip_scenario(&mut rng, sc, out, kv),
+            "tipeq" => tipeq_scenario(&mut rng, sc, out, kv),
             "mut" => mut_scenario(&mut rng, sc, out, kv),
             "adv" => adv_scenario(&mut rng, sc, out, kv),
             _ => {
